@@ -165,7 +165,7 @@ def discharge(check_id, job, pr, out, replay_kind, describe=None, timeout_ms=400
                     v = None
                 else:
                     info["solver"] = (info.get("winner") or info["solver"]) + " [abstraction + lemmas]"
-            if v is None and light is not None and tries == 0:
+            if v is None and light is not None and tries == 0 and out.d.get("inproc_unknown_streak", 0) < 3:
                 # sound shortcut: fewer assumptions (no enclosure tables); unsat here implies unsat with them
                 v, model, info = solve.decide(light, z3.Not(goal), pr.inputs, timeout_ms=min(timeout_ms, 3000),
                                               use_external=False)
@@ -175,9 +175,16 @@ def discharge(check_id, job, pr, out, replay_kind, describe=None, timeout_ms=400
                 else:
                     info["solver"] += " [without tables]"
             if v is None:
-                v, model, info = solve.decide(cons + blocked, z3.Not(goal), pr.inputs, timeout_ms=timeout_ms,
+                # adaptive: when the in-process solver keeps answering 'unknown' in this job (typically NRA), stop waiting for it
+                streak = out.d.get("inproc_unknown_streak", 0)
+                tmo = timeout_ms if streak < 3 else 250
+                v, model, info = solve.decide(cons + blocked, z3.Not(goal), pr.inputs, timeout_ms=tmo,
                                               ext_timeout_s=ext_timeout_s)
                 out.d["queries"] += 1
+                if "external" in info:
+                    out.d["inproc_unknown_streak"] = streak + 1
+                else:
+                    out.d["inproc_unknown_streak"] = 0
             out.d["solver_time"] += time.time() - t0
             out.d.setdefault("time_by_name", {})
             out.d["time_by_name"][name] = out.d["time_by_name"].get(name, 0.0) + time.time() - t0
